@@ -30,6 +30,10 @@ def sequences(tier, rng):
         sids = gens.STORY_IDS[:rng.randrange(1, 5)]
         ro = gens.make_ro(sids, layout=rng.choice(gens.RO_LAYOUTS), timing=rng.choice(gens.TIMINGS), message_id=1)
         state = to_text(ro)
+        if s % 12 == 7:
+            # the roCreate document is a completed running order that was written out earlier
+            done = impl.run_add(state, to_text(ro_delete(1)))
+            state = X.tree_to_string(done['tree'])
         docs = [state]
         counter = [0]
 
@@ -101,10 +105,10 @@ def hand_fold(docs, strict):
 class Check:
     pid = 'C09'
     rule = ('seeded random sequences of 1..10 [1..40] messages of mixed types (story-level, item-level, metadata, '
-            'ready-to-air, second roCreate, roReplace and roDelete in the middle) built against the evolving state so that most resolve, '
+            'ready-to-air, second roCreate, roReplace and roDelete in the middle; a roCreate document that is already completed) built against the evolving state so that most resolve, '
             'with unresolvable ones at random placements, supplied in shuffled order; each merged strict and non-strict, '
             'through from_strings and from_files; compared with the model loop and with a hand fold of `ro += msg` over '
-            'freshly parsed messages. distinct by (#messages, #failing, mode, constructor, exception)')
+            'freshly parsed messages; for a fifth of them merge() is called a second time on the same collection. distinct by (#messages, #failing, mode, constructor, exception)')
 
     def matches_known(self, k, v):
         return False
@@ -143,6 +147,8 @@ class Check:
                                     % ('strict' if c['strict'] else 'non-strict', how,
                                        'exception %r vs %r' % (a[0], w[0]) if a[0] != w[0] else
                                        'warnings' if a[1] != w[1] else 'running order'))
+                    if how == 'strings' and len(a) == 3 and (n % 5 == 1) and not what:
+                        what = self.second_merge(c, io, tmp)
                     if what:
                         vio.append({'what': what, 'case': {'kind': 'coll', 'docs': c['docs'], 'inc': True, 'strict': c['strict'], 'how': how},
                                     'impl': str(a[:2]), 'expected': str(w[:2])})
@@ -155,6 +161,28 @@ class Check:
             shutil.rmtree(tmp, ignore_errors=True)
         return {'evaluations': n, 'distinct': len(sigs), 'rule': self.rule, 'samples': samples, 'distribution': dist,
                 'disagreements': dis, 'violations': vio, 'extra': {'sequences': len(seqs)}}
+
+    def second_merge(self, c, io1, tmp):
+        """merge() called again on the same collection: the same as merging the same messages into the state the
+        first call left (for a completed running order: every message refused once more)"""
+        from mosromgr.mostypes import MosFile, RunningOrder
+        io = impl.run_coll(c['docs'], True, c['strict'], how='strings', tmpdir=tmp, again=True)
+        objs = [MosFile.from_string(t) for t in c['docs']]
+        order = sorted(range(len(objs)), key=lambda k: objs[k].message_id)
+        ro_idx = [k for k in order if type(objs[k]) is RunningOrder][0]
+        docs2 = list(c['docs'])
+        try:
+            docs2[ro_idx] = X.tree_to_string(io['tree'])
+        except Exception:
+            return None
+        want = hand_fold(docs2, c['strict'])
+        got = (io.get('err2'), tuple(io.get('warns2') or ()), io.get('tree2'))
+        w = (want['err'], tuple(want['warns']), want['tree'])
+        if got != w:
+            return ('calling merge() a second time (%s) differs from adding the messages once more one by one: %s'
+                    % ('strict' if c['strict'] else 'non-strict',
+                       'exception %r vs %r' % (got[0], w[0]) if got[0] != w[0] else 'warnings %r vs %r' % (got[1], w[1]) if got[1] != w[1] else 'running order'))
+        return None
 
     def replay(self, rep):
         case = rep.get('case') or {}
@@ -169,8 +197,11 @@ class Check:
             return {'violation': False, 'note': 'constructor raised ' + io['err0']}
         want = hand_fold(case['docs'], case['strict'])
         bad = (io['err'], io['warns'], io['tree']) != (want['err'], want['warns'], want['tree'])
-        return {'violation': bad, 'impl_err': io['err'], 'want_err': want['err'],
-                'impl_warns': io['warns'], 'want_warns': want['warns']}
+        second = None
+        if not bad and case.get('how', 'strings') == 'strings':
+            second = self.second_merge(case, io, None)
+        return {'violation': bad or bool(second), 'impl_err': io['err'], 'want_err': want['err'],
+                'impl_warns': io['warns'], 'want_warns': want['warns'], 'second_merge': second}
 
     def shrink(self, v):
         case = dict(v['case'])
